@@ -365,3 +365,76 @@ def maybe_true(r: ast.Return) -> bool:
     if isinstance(v, ast.Constant):
         return bool(v.value)
     return True
+
+
+def feasible_reach(g, start, targets: set, normal_only: bool = True) -> bool:
+    """Is a node of `targets` reachable from `start` along paths that are consistent with the boolean / None constants assigned to
+    local names on the way?  (`ok = False; break` ... `if not ok: return` -- the false edge of that test is not taken on this path.)
+    Path-sensitive in exactly that respect; everything else is ordinary flow-graph reachability, so the answer errs on the side
+    of "reachable"."""
+    def step(n, st):
+        a = n.ast
+        if n.kind == "stmt" and isinstance(a, (ast.Assign, ast.AnnAssign)) and getattr(a, "value", None) is not None:
+            tg = a.targets if isinstance(a, ast.Assign) else [a.target]
+            if len(tg) == 1 and isinstance(tg[0], ast.Name):
+                st = tuple(x for x in st if x[0] != tg[0].id)
+                v = a.value
+                if isinstance(v, ast.Constant) and (v.value is None or isinstance(v.value, bool)):
+                    st = st + ((tg[0].id, v.value),)
+                elif isinstance(v, ast.Name):
+                    known = dict(st)
+                    if v.id in known:
+                        st = st + ((tg[0].id, known[v.id]),)
+                return tuple(sorted(st, key=str))
+        if isinstance(a, (ast.For,)) and isinstance(getattr(a, "target", None), ast.Name):
+            return tuple(x for x in st if x[0] != a.target.id)
+        if n.kind == "stmt" and isinstance(a, ast.AugAssign) and isinstance(a.target, ast.Name):
+            return tuple(x for x in st if x[0] != a.target.id)
+        return st
+
+    def truth(e, known):
+        if isinstance(e, ast.UnaryOp) and isinstance(e.op, ast.Not):
+            v = truth(e.operand, known)
+            return None if v is None else (not v)
+        if isinstance(e, ast.Name) and e.id in known:
+            return bool(known[e.id])
+        if isinstance(e, ast.Compare) and len(e.ops) == 1 and isinstance(e.left, ast.Name) and e.left.id in known \
+                and isinstance(e.comparators[0], ast.Constant) and e.comparators[0].value is None:
+            isnone = known[e.left.id] is None
+            if isinstance(e.ops[0], ast.Is):
+                return isnone
+            if isinstance(e.ops[0], ast.IsNot):
+                return not isnone
+        if isinstance(e, ast.BoolOp):
+            vals = [truth(v, known) for v in e.values]
+            if isinstance(e.op, ast.And):
+                if any(v is False for v in vals):
+                    return False
+                if all(v is True for v in vals):
+                    return True
+            else:
+                if any(v is True for v in vals):
+                    return True
+                if all(v is False for v in vals):
+                    return False
+        return None
+    s0 = (start.id, ())
+    seen, todo = {s0}, [s0]
+    while todo:
+        a, st = todo.pop()
+        na = g.nodes[a]
+        st2 = step(na, st)
+        for (b, lbl) in g.succ[a]:
+            if normal_only and lbl in ("exc", "excb"):
+                continue
+            if na.kind in ("if", "while") and na.ast is not None and lbl in ("T", "F"):
+                tv = truth(na.ast, dict(st2))
+                if tv is not None and lbl != ("T" if tv else "F"):
+                    continue
+            if b in targets:
+                return True
+            key = (b, st2)
+            if key not in seen and len(seen) < 50000:
+                seen.add(key)
+                todo.append(key)
+    return False
